@@ -66,7 +66,8 @@ type c19Edit struct {
 // start of the same content does (decided by the worker, not by this file)
 var c19Class = map[string]string{
 	"valid": "load", "valid-same-stat": "load", "valid-interp": "load", "valid-ws": "load", "recreate": "load", "atomic": "load", "trunc": "load",
-	"parse": "fail", "delete": "fail", "garbage": "fail", "unreadable": "fail",
+	"parse": "fail", "delete": "fail", "unreadable": "fail",
+	"garbage": "cold", // random bytes: one in a few thousand samples happens to load (as an application without /version)
 	"semantic": "cold", "ws-conflict": "cold", "live-conflict": "cold", "static-conflict": "cold", "static-ok": "cold", "empty": "cold", "comment": "cold", "noversion": "cold",
 }
 
@@ -842,9 +843,15 @@ func c19RunProc(bin, dir string, id int, initial string, edits []c19Edit) c19Pro
 	}
 	client := &http.Client{Transport: &http.Transport{DisableKeepAlives: true}, Timeout: 3 * time.Second}
 	url := fmt.Sprintf("http://127.0.0.1:%d/version", port)
+	slow := &http.Client{Transport: &http.Transport{DisableKeepAlives: true}, Timeout: 20 * time.Second}
 	probe := func() c19Probe {
 		p := c19Probe{}
 		resp, err := client.Get(url)
+		for a := 0; a < 2 && err != nil && (os.IsTimeout(err) || strings.Contains(err.Error(), "Timeout") || strings.Contains(err.Error(), "deadline exceeded")); a++ {
+			// no answer within 3 s says nothing on an oversubscribed machine: only a refused / reset connection, or
+			// silence for 20 s twice over, counts as "down"
+			resp, err = slow.Get(url)
+		}
 		if err != nil {
 			p.Err = err.Error()
 			return p
